@@ -168,6 +168,23 @@ func run(c *rig.Ctx) {
 	})
 	c.MarkExhaustive("LCD switched off at every cycle offset (0..113) of lines {0,1,2,142,143,144,145,152,153} in the first and in later frames")
 
+	// (1b) long runs: the schedule must not depend on how many frames have gone by (300 and, in
+	// the thorough tier, 70 000 uninterrupted frames: past any 8- or 16-bit frame count)
+	c.Part("long", 2, func(i int64, r *rig.Rng) {
+		w := newWorld()
+		frames := int64(300)
+		if i == 1 {
+			frames = c.N(520, 70000)
+		}
+		for w.t < frames*lcdref.FrameLen {
+			if !w.tick() {
+				return
+			}
+		}
+		c.Count("long_run_frames", frames)
+		c.Exact(1)
+	})
+
 	// (2) random schedules
 	ns := c.N(120, 3000)
 	c.Part("schedules", ns, func(i int64, r *rig.Rng) {
